@@ -305,6 +305,7 @@ func engineConcSearch(ctx *Ctx) {
 				}
 			})
 		}
+		c11LookAlikeOverlap(ctx, r, db, cdb, words, cs)
 		os.RemoveAll(embDir)
 		ctx.R.Path("loaded-by:"+how, 1)
 		ctx.R.Path("goroutine-rounds", 1)
@@ -337,6 +338,77 @@ func engineConcSearch(ctx *Ctx) {
 		}
 	}
 	c11MonitorHammer(ctx, r)
+}
+
+// c11LookAlikeOverlap: requests that are different but read alike once their options are written down without quotes (the
+// platform list [linux macos] is two names or one; the boost map map[a:2 b:3] has two words or one) are asked through one caching
+// wrapper AT THE SAME MOMENT, again and again, each time with an empty cache (both miss, both are being computed together): each
+// gets the answer it gets alone.
+func c11LookAlikeOverlap(ctx *Ctx, r *rand.Rand, db *database.Database, cdb *database.CachedDatabase, words []string, cs map[string]interface{}) {
+	if len(words) < 2 {
+		return
+	}
+	a, b := vlib.Word(r, words), vlib.Word(r, words)
+	q := a + " " + b
+	N := len(db.Commands)
+	base := database.SearchOptions{Limit: N + 1, UseFuzzy: true, UseNLP: r.Intn(2) == 0}
+	mk := func(pl []string, bm map[string]float64) database.SearchOptions {
+		o := base
+		o.Platforms, o.ContextBoosts = pl, bm
+		o.AllPlatforms = pl == nil
+		return o
+	}
+	pairs := [][2]database.SearchOptions{
+		{mk([]string{"linux macos"}, nil), mk([]string{"linux", "macos"}, nil)},
+		{mk([]string{"windows", "linux"}, nil), mk([]string{"windows linux"}, nil)},
+		{mk(nil, map[string]float64{a + ":5 " + b: 2}), mk(nil, map[string]float64{a: 5, b: 2})},
+		{mk(nil, map[string]float64{a: 3}), mk(nil, map[string]float64{a: 3, b: 1.5})},
+	}
+	for pi, pr := range pairs {
+		var alone [2][]vlib.Ranked
+		var stable [2]bool
+		for k := 0; k < 2; k++ {
+			o := pr[k]
+			alone[k], stable[k] = vlib.StableRef(3, func() vlib.Ranked { return vlib.Canon(db.Commands, db.SearchUniversal(q, o)) })
+		}
+		differ := !vlib.Exact(alone[0][0], alone[1][0])
+		rounds := ctx.Pick(30, 60)
+		bad := false
+		for rd := 0; rd < rounds && !bad; rd++ {
+			cdb.InvalidateCache()
+			var got [2]vlib.Ranked
+			var wg sync.WaitGroup
+			var ready int32
+			for k := 0; k < 2; k++ {
+				wg.Add(1)
+				go func(k int) {
+					defer wg.Done()
+					defer func() {
+						if e := recover(); e != nil {
+							ctx.R.Violate(vlib.Violation{Property: "C11", Clause: "panic", Path: "SearchWithOptionsAndCache/look-alike-requests-at-once", Detail: fmt.Sprint(e), Witness: cs})
+						}
+					}()
+					atomic.AddInt32(&ready, 1)
+					for atomic.LoadInt32(&ready) < 2 {
+					}
+					got[k] = vlib.Canon(db.Commands, cdb.SearchWithOptionsAndCache(q, pr[k]))
+				}(k)
+			}
+			wg.Wait()
+			ctx.R.Path("look-alike-requests-asked-at-once", 2)
+			for k := 0; k < 2; k++ {
+				if v, why := vlib.CompareToRef(alone[k], stable[k], got[k], N+1); v == "violated" {
+					ctx.R.Violate(vlib.Violation{Property: "C11", Clause: "not-as-if-alone", Path: "SearchWithOptionsAndCache/look-alike-requests-at-once",
+						Detail:  fmt.Sprintf("request %d of look-alike pair %d for %q, asked while the other one was being answered, differs from its answer when run alone: %s", k, pi, q, why),
+						Witness: map[string]interface{}{"case": cs, "opts_a": vlib.OptsJ(pr[0]), "opts_b": vlib.OptsJ(pr[1]), "alone": alone[k][0], "concurrent": got[k], "the_other_requests_answer_alone": alone[1-k][0]}})
+					bad = true
+				}
+			}
+		}
+		if differ {
+			ctx.R.Path("look-alike-pairs-with-different-answers-asked-at-once", 1)
+		}
+	}
 }
 
 // c11MonitorHammer: many goroutines issue monitored searches of a few queries on one small database as fast as they can;
